@@ -87,9 +87,14 @@ class Printer:
         k = n[0]
         r = self.r
         if k == "i":
+            if n[1] in (0, 1) and r.random() < 0.12:
+                return "true" if n[1] == 1 else "false"          # the two keyword spellings of 1 and 0
             return str(n[1])
         if k == "f":
-            return repr(n[1])
+            t = repr(n[1])
+            if t.startswith("0.") and r.random() < 0.3:
+                return t[1:]                                      # `.5`: float <- [0-9]* '.' [0-9]+
+            return t
         if k == "s":
             return self.strlit(n[1])
         if k == "n":
@@ -134,10 +139,15 @@ class Printer:
         if k == "slc":
             # a slice suffix follows a whole ternary-level expression that must not start with "(" (nestedBoost would take the
             # parenthesised part alone): the generator only slices variables, array literals and ranges
-            return self.raw(n[1]) + "[" + self.opt(n[2]) + ":" + self.opt(n[3]) + "]"
+            # the step part may be written as an empty `:` (a non-empty step is a run-time error: not generated here)
+            return self.raw(n[1]) + "[" + self.opt(n[2]) + ":" + self.opt(n[3]) + (":" + self.sp() if r.random() < 0.15 else "") + "]"
         if k == "attr":
             return self.head(n[1]) + "." + n[2]
         if k == "call":
+            # postfix spelling of kh / kl on an array literal: `[3,1,2]kh2`, `[3,1,2]kl` (array_call)
+            if n[1][0] == "attr" and n[1][2] in ("kh", "kl") and n[1][1][0] in ("arr", "range") and len(n[2]) <= 1 and \
+                    all(a[0] == "i" and a[1] >= 0 for a in n[2]) and r.random() < 0.5:
+                return self.raw(n[1][1]) + n[1][2] + "".join(str(a[1]) for a in n[2])
             return self.head(n[1]) + "(" + self.sp() + self.elems(n[2]) + ")"
         if k == "iset":
             return self.head(n[1]) + "[" + self.sp() + self.p(n[2], 0) + "]" + self.sp() + "=" + self.sp() + self.p(n[3], 0)
@@ -158,18 +168,18 @@ class Printer:
             _, times, sides, keep, kk, mn, mx = n
             s = ""
             if times is not None:
-                s += self.p(times, 12) if times[0] == "i" else "(" + self.p(times, 0) + ")"
+                s += str(times[1]) if times[0] == "i" else "(" + self.p(times, 0) + ")"
             s += "d"
             if sides is not None:
-                s += self.p(sides, 12) if sides[0] == "i" else "(" + self.p(sides, 0) + ")"
+                s += str(sides[1]) if sides[0] == "i" else "(" + self.p(sides, 0) + ")"
             if keep:
                 s += {1: "kl", 2: "kh", 3: "dl", 4: "dh"}[keep]
                 if kk is not None:
-                    s += self.p(kk, 12) if kk[0] == "i" else "(" + self.p(kk, 0) + ")"
+                    s += str(kk[1]) if kk[0] == "i" else "(" + self.p(kk, 0) + ")"
             if mn is not None:
-                s += "min" + (self.p(mn, 12) if mn[0] == "i" else "(" + self.p(mn, 0) + ")")
+                s += "min" + (str(mn[1]) if mn[0] == "i" else "(" + self.p(mn, 0) + ")")
             if mx is not None:
-                s += "max" + (self.p(mx, 12) if mx[0] == "i" else "(" + self.p(mx, 0) + ")")
+                s += "max" + (str(mx[1]) if mx[0] == "i" else "(" + self.p(mx, 0) + ")")
             return s
         if k == "seq":
             return self.stmts(n[1])
@@ -381,6 +391,8 @@ class AstGen:
             if m:
                 return ("call", ("var", m), [])
         if k < 0.94:
+            if r.random() < 0.4:
+                return ("call", ("attr", self.e_arr(d + 1), r.choice(["kh", "kl"])), [] if r.random() < 0.4 else [("i", r.randint(0, 4))])
             return ("call", ("attr", self.e_arr(d + 1), r.choice(["len", "sum"])), [])
         if k < 0.97:
             dd = self.pick("dict")
